@@ -26,7 +26,16 @@ def _run_op(op):
         if name == "qspp":
             from pyqsp.angle_sequence import QuantumSignalProcessingPhases
             poly = _mk(op["poly"], op.get("complex"))
-            args.append(("poly", poly, poly.copy()))
+            cont = op.get("container", "array")
+            if cont == "list":
+                poly = [complex(x) if op.get("complex") else float(x) for x in poly]
+                args.append(("poly", poly, numpy.array(poly)))
+            elif cont == "Polynomial":
+                # a numpy Polynomial built around the caller's own coefficient array
+                poly = numpy.polynomial.Polynomial(poly)
+                args.append(("poly.coef", poly.coef, poly.coef.copy()))
+            else:
+                args.append(("poly", poly, poly.copy()))
             kw = {k: op[k] for k in ("signal_operator", "measurement", "method") if op.get(k) is not None}
             if "tolerance" in op:
                 kw["tolerance"] = dec(op["tolerance"])
@@ -34,7 +43,10 @@ def _run_op(op):
         elif name == "completion":
             from pyqsp.completion import completion_from_root_finding
             coefs = _mk(op["coefs"], op.get("complex"))
-            args.append(("coefs", coefs, coefs.copy()))
+            if op.get("as_int"):
+                # integer-typed coefficients, as a caller writes [0, -3, 0, 4]
+                coefs = [int(x) for x in coefs] if op.get("container") == "list" else coefs.astype(numpy.int64)
+            args.append(("coefs", coefs, numpy.array(coefs)))
             kw = {"coef_type": op.get("coef_type", "F")}
             seed = None
             if op.get("seed") is not None:
@@ -84,7 +96,8 @@ def _run_op(op):
             raise RuntimeError("unknown op " + name)
     except BaseException as e:
         res = {"exc": type(e).__name__, "msg": str(e)[:100]}
-    changed = [n for n, now, before in args if now.shape != before.shape or not numpy.array_equal(now, before, equal_nan=True)]
+    changed = [n for n, now, before in args if numpy.asarray(now).shape != before.shape or numpy.asarray(now).dtype != before.dtype
+               or numpy.asarray(now).tobytes() != before.tobytes()]
     return res, changed
 
 
